@@ -1,25 +1,38 @@
 """C15 — deadlock detection agrees with the real wait-for relation.
 
-After EVERY step of a history on the real CellCycleController the harness recomputes a reference
-wait-for graph from the history (who got BLOCKED on what and has not acquired/completed/aborted
-since) and the live ResourceLock.owner fields, runs its own cycle search, and compares with
-controller.check_deadlock(); reported cycles are validated edge by edge; watchdog.execute() is
-checked for victim choice, release and cycle removal.
+After (almost) every step of a history on the real CellCycleController the harness recomputes a reference wait-for graph
+from the HISTORY OF RESULTS alone (rv/c15_world.py: who got BLOCKED on what and has not acquired/completed/been aborted
+since; who owns what, with re-entrant hold counts, from ACQUIRED/REENTRANT/PREEMPTED/release results), runs its own
+cycle search and compares with controller.check_deadlock(); reported cycles are validated edge by edge; watchdog.execute()
+is checked for victim choice, release and cycle removal.  Every history ends with a closing probe (the non-waiting end
+of a wait chain asks for something a chain member holds), because a wrong wait edge is only observable through a cycle.
 """
 import sys
 
 from rv import core
+from rv.c15_world import Cfg, World, random_cfg, random_step, guided_step, BAD_KINDS, READ_KINDS, TICKS
 
 PID = "C15"
 LEVEL = "exploration"
-TECHNIQUE = "runtime monitoring: reference wait-for graph recomputed after every step from the history and live lock owners, compared with check_deadlock(); watchdog victim/cleanup obligations"
-RULE = ("2-3 pre-started operations x 2-3 resources (preemptable or not) x priorities; all histories of depth <= 4 (quick) / <= 5 (thorough) over "
-        "{acquire(o,r), release(o,r), complete(o), abort(o), start(o), watchdog.execute} on the 2x2 configs are swept (inapplicable steps skipped), "
-        "plus acquire-heavy (6:1) random histories of depth 6-12 on 3x3; a blocked operation only retries its acquisition; "
-        "non-trivial = history contains >= 1 BLOCKED; distinct = trace of (owner map, wait set)")
-ASSUMPTIONS = ["an operation is 'currently blocked' from a BLOCKED result until it acquires that resource, completes or is aborted, and meanwhile only retries that acquisition",
-               "lock ownership is read from the live ResourceLock.owner fields (their discipline is C14's subject)",
-               "ties in priority/age: any minimal member is an acceptable victim"]
+TECHNIQUE = ("runtime monitoring: reference wait-for graph recomputed from the history of results (ownership with re-entrant hold counts, "
+             "blocked set) after every step and compared with check_deadlock(); closing probes; watchdog victim/cleanup obligations")
+RULE = ("2-4 operations x 2-6 resources (preemptable or not) x priorities (small ints, 0/negative, last-bit floats, > 2**53, inf, nan); "
+        "all histories of depth <= 4 (quick) / <= 5 (thorough) over {acquire(o,r), release(o,r), complete(o), abort(o), start(o), watchdog.execute} "
+        "on the 2x2 configs are swept (inapplicable steps skipped); acquire-heavy (6:1) random histories of depth 6-12 on 3x3; state-guided hostile "
+        "histories (failing acquisitions incl. by blocked operations, refused releases, manual kills, re-entrant holds and partial releases, "
+        "preemption leftovers, priority-inheritance boosts, reporting APIs interleaved / sparse observation, raising and re-entering checkpoint "
+        "callbacks, clock jumps up to 400 days with watchdog timeouts, registry changes, id case/clash variants, equal-but-distinct id objects, "
+        "age gaps from 1 microsecond to > 1 year, controller built directly or through CoordinationSystem); two differently configured worlds "
+        "interleaved (optionally sharing one Watchdog); one-instance histories of > 100 000 steps with > 20 000 distinct operations; "
+        "a blocked operation only retries its acquisition (or makes calls that fail); non-trivial = history contains >= 1 BLOCKED; "
+        "distinct = trace of (owner map, wait set)")
+ASSUMPTIONS = ["an operation is 'currently blocked' from a BLOCKED result until it acquires that resource, completes or is aborted, and meanwhile only retries that acquisition "
+               "(calls that fail - an acquisition that raises, a release that returns False - leave it blocked)",
+               "an operation 'currently owns' a resource according to the history of results: ACQUIRED/PREEMPTED give it one hold, REENTRANT one more, "
+               "each release that returned True takes one away, completion/abort/kill take all; a history whose results contradict that (lock "
+               "discipline broken - C14's subject) is abandoned, not judged",
+               "ties in priority/age: any minimal member is an acceptable victim; priority is the operation's current (possibly inherited) priority; "
+               "an unknown deadlock_strategy only has to kill a member; when a timeout sweep terminates the deadlock victim for another reason its choice is not judged"]
 
 CONFIGS_22 = [  # (priorities, preemptable flags)
     ((1, 1), (False, False)), ((1, 2), (False, False)), ((1, 2), (True, False)), ((2, 1), (True, True)), ((1, 1), (True, False)),
@@ -62,41 +75,67 @@ def decode(idx, depth):
     raise IndexError
 
 
-def plan(tier):
+def sizes(tier):
     depth = 4 if tier == "quick" else 5
-    nsweep = len(CONFIGS_22) * sweep_total(depth) // (3 if tier == "quick" else 1)
-    extra = 40000 if tier == "quick" else 600000
-    return {"cases": nsweep + extra, "shards": 8 if tier == "quick" else 14, "min_nontrivial": 1000,
+    div = 3 if tier == "quick" else 1
+    nsweep = len(CONFIGS_22) * sweep_total(depth) // div
+    nlong = 2 if tier == "quick" else 14
+    extra = 60000 if tier == "quick" else 700000
+    return depth, div, nsweep, nlong, extra
+
+
+LONG_STEPS = 160000
+
+
+def plan(tier):
+    depth, div, nsweep, nlong, extra = sizes(tier)
+    return {"cases": nlong + nsweep + extra, "shards": 8 if tier == "quick" else 14, "min_nontrivial": 1000,
             "timeout": 600 if tier == "quick" else 2400,
             "require": {"steps_compared": 200000, "histories_with_true_cycle": 200, "histories_with_owner_change_while_waiting": 200,
-                        "true_cycle_steps": 1000, "reported_cycles_validated": 1000, "watchdog_deadlock_kills": 100, "blocked_results": 20000, "repeated_deadlock_histories": 300}}
-
-
-def find_cycle(edges):
-    """edges: waiter -> blocking (each waiter waits for exactly one resource => out-degree <= 1)."""
-    for start in edges:
-        seen = []
-        cur = start
-        while cur in edges and cur not in seen:
-            seen.append(cur)
-            cur = edges[cur]
-        if cur in seen:
-            return seen[seen.index(cur):]
-    return None
+                        "true_cycle_steps": 1000, "reported_cycles_validated": 1000, "watchdog_deadlock_kills": 100, "blocked_results": 20000,
+                        "repeated_deadlock_histories": 300,
+                        # round 3
+                        "closing_probes": 2000, "failed_acquires_while_blocked": 300, "partial_releases": 300, "preemptions": 500,
+                        "finished_after_being_preempted": 100, "reads_interleaved": 1000, "final_comparisons_after_unobserved_steps": 200,
+                        "watchdog_without_prior_read": 100, "priority_boosts": 100, "clock_jumps": 300, "raising_callbacks": 40,
+                        "reentrant_acquires_from_callback": 50, "registry_changes": 100, "victims_judged_priority": 100,
+                        "victims_judged_oldest": 50, "paired_world_histories": 300, "shared_watchdog_histories": 50,
+                        "system_path_histories": 300, "refused_releases": 1000,
+                        "max:long_history_steps": 20000, "max:long_history_distinct_operations": 6000}}
 
 
 def run_case(ctx, n):
-    depth = 4 if ctx.tier == "quick" else 5
-    per = sweep_total(depth)
-    div = 3 if ctx.tier == "quick" else 1
-    nsweep = len(CONFIGS_22) * per // div
-    if n < nsweep:
-        ci, j = divmod(n, per // div)
+    depth, div, nsweep, nlong, extra = sizes(ctx.tier)
+    if n < nlong:
+        return run_long(ctx, n)
+    n0 = n - nlong
+    if n0 < nsweep:
+        per = sweep_total(depth)
+        ci, j = divmod(n0, per // div)
         ci %= len(CONFIGS_22)
         idx = (j * div + (ctx.seed + ci) % div) % per
         prios, pre = CONFIGS_22[ci]
-        return drive(ctx, n, 2, 2, prios, pre, decode(idx, depth), "priority")
+        w = World(ctx, Cfg(nops=2, nres=2, prios=prios, pre=pre, strategy="priority"), ctx.rng(n, "w"))
+        for step in decode(idx, depth):
+            if not w.apply(step):
+                break
+        w.finish()
+        if n0 % 20000 == 0:
+            ctx.sample(w.witness())
+        return
     rng = ctx.rng(n)
+    fam = rng.random()
+    if fam < 0.40:
+        return run_legacy(ctx, n, rng)
+    if fam < 0.70:
+        return run_hostile(ctx, n, rng, stale_prefix=False)
+    if fam < 0.85:
+        return run_hostile(ctx, n, rng, stale_prefix=True)
+    return run_pair(ctx, n, rng)
+
+
+# ---- family: acquire-heavy random histories with scripted deadlock prefixes (rounds 1-2) ----------------
+def run_legacy(ctx, n, rng):
     nops, nres = rng.choice([(2, 2), (3, 2), (2, 3), (3, 3), (3, 3)])
     prios = tuple(rng.choice([1, 1, 2, 3]) for _ in range(nops))
     pre = tuple(rng.random() < 0.3 for _ in range(nres))
@@ -122,183 +161,164 @@ def run_case(ctx, n):
                     [("release", a, ra), ("release", b, rb), ("acquire", a, ra), ("acquire", b, rb), ("acquire", a, rb), ("acquire", b, ra), ("watchdog",)]
             seq = prefix + again + ([("watchdog",)] if rng.random() < 0.3 else [])
             ctx.count("repeated_deadlock_histories")
-    drive(ctx, n, nops, nres, prios, pre, seq, rng.choice(["priority", "priority", "oldest"]))
-
-
-def drive(ctx, n, nops, nres, prios, pre, seq, strategy):
-    from operon_ai.coordination.controller import CellCycleController
-    from operon_ai.coordination.types import ResourceLock, LockResult
-    from operon_ai.coordination.watchdog import Watchdog
-
-    ctl = CellCycleController()
-    rids = ["r%d" % i for i in range(nres)]
-    oids = ["op%d" % i for i in range(nops)]
-    for i, r in enumerate(rids):
-        ctl.register_resource(ResourceLock(resource_id=r, allow_preemption=pre[i]))
-    wd = Watchdog(deadlock_strategy=strategy)
-    ctxs = {}
-    born = {}
-    clockn = [0]
-    for i, o in enumerate(oids):       # pre-started
-        ctxs[o] = ctl.start_operation(o, "agent%d" % i, priority=prios[i])
-        clockn[0] += 1
-        born[o] = clockn[0]
-    waiting = {}                        # op -> resource it is blocked on
-    trace = []
-    witness = {"ops": dict(zip(oids, prios)), "preemptable": dict(zip(rids, pre)), "strategy": strategy, "history": trace}
-    had_blocked = had_cycle = owner_change_while_waiting = False
-    states = []
-
-    def viol(mech, what):
-        ctx.violation(mech, what, witness)
-
-    def owners():
-        return {r: ctl.resources[r].owner for r in rids}
-
-    def ref_edges():
-        e = {}
-        own = owners()
-        for w, r in waiting.items():
-            if own[r] is not None and own[r] != w:
-                e[w] = own[r]
-        return e
-
+    cfg = Cfg(nops=nops, nres=nres, prios=prios, pre=pre, strategy=rng.choice(["priority", "priority", "oldest"]))
+    w = World(ctx, cfg, ctx.rng(n, "w"))
     for step in seq:
-        kind = step[0]
-        own_before = owners()
-        if kind == "watchdog":
-            pre_cycle = find_cycle(ref_edges())
-            reported = ctl.check_deadlock()
-            try:
-                events = wd.execute(ctl)
-            except BaseException as e:
-                trace.append(["watchdog", "RAISED %r" % (e,)])
-                viol("watchdog-raises", "watchdog.execute raised %r" % (e,))
-                return
-            killed = [e.operation_id for e in events]
-            trace.append(["watchdog", "killed", killed])
-            for k in killed:
-                waiting.pop(k, None)
-            if reported is not None and pre_cycle is not None and set(reported.agents) == set(pre_cycle):
-                # obligations apply to a correctly reported cycle
-                members = [m for m in reported.agents if m in ctxs]
-                if not killed:
-                    viol("watchdog-ignores-deadlock", "a real deadlock %s was reported and nobody was terminated" % reported.agents)
-                    return
-                ctx.count("watchdog_deadlock_kills")
-                v = killed[0]
-                if v not in members:
-                    viol("victim-not-in-cycle", "victim %s is not a member of the cycle %s" % (v, members))
-                    return
-                if strategy == "priority":
-                    if ctxs[v].priority != min(ctxs[m].priority for m in members):
-                        viol("victim-not-lowest-priority", "victim %s (priority %d) but cycle priorities are %s" % (
-                            v, ctxs[v].priority, {m: ctxs[m].priority for m in members}))
-                        return
-                else:
-                    # judged on the operations' real creation stamps (ties: any oldest member is acceptable)
-                    if ctxs[v].created_at != min(ctxs[m].created_at for m in members):
-                        viol("victim-not-oldest", "victim %s is not the oldest member of %s" % (v, members))
-                        return
-                still = [r for r, o in owners().items() if o == v]
-                if still or v in ctl.active_operations:
-                    viol("victim-still-owns", "victim %s still owns %s / active=%s" % (v, still, v in ctl.active_operations))
-                    return
-                again = ctl.check_deadlock()
-                if again is not None and set(again.agents) == set(reported.agents):
-                    viol("cycle-not-broken", "after killing %s the same cycle %s is still reported" % (v, again.agents))
-                    return
-        else:
-            o = oids[step[1]]
-            live = o in ctl.active_operations
-            if kind == "start":
-                if live:
-                    continue
-                ctxs[o] = ctl.start_operation(o, "agent-" + o, priority=prios[step[1]])
-                clockn[0] += 1
-                born[o] = clockn[0]
-                trace.append(["start", o])
-            elif not live:
+        if not w.apply(step):
+            break
+    w.finish()
+    if n % 20011 == 0:
+        ctx.sample(w.witness())
+
+
+# ---- virtual time ------------------------------------------------------------------------------------------
+def timed(clock):
+    from rv import vclock
+    import operon_ai.coordination.controller as m1
+    import operon_ai.coordination.types as m2
+    import operon_ai.coordination.watchdog as m3
+    import operon_ai.coordination.priority as m4
+    import operon_ai.coordination.system as m5
+    return vclock.patched(clock, m1, m2, m3, m4, m5)
+
+
+def new_clock():
+    from rv import vclock
+    return vclock.VClock()      # real base: dataclass default factories captured the real clock for created_at
+
+
+# ---- family: hostile configuration + state-guided generator -----------------------------------------------------
+def stale_prefix_steps(rng, cfg):
+    """an owner is preempted (its bookkeeping still lists the lock), the preemptor may re-enter, then the preempted one does something"""
+    x, y = rng.sample(range(cfg.nops), 2)
+    r = rng.randrange(cfg.nres)
+    pr = list(cfg.prios)
+    lo, hi = rng.choice([(1, 2), (0, 1), (1, 5), (2 ** 53, 2 ** 53 + 1), (0.3, 0.1 + 0.2), (-1, 0)])
+    pr[x], pr[y] = lo, hi
+    pre = list(cfg.pre)
+    pre[r] = True
+    cfg.prios, cfg.pre = tuple(pr), tuple(pre)
+    steps = [("acquire", x, r)] * rng.randint(1, 2)
+    if rng.random() < 0.4:
+        steps.append(("acquire", x, (r + 1) % cfg.nres))
+    steps.append(("acquire", y, r))
+    steps += [("acquire", y, r)] * rng.randint(0, 2)
+    fin = rng.choice(["complete", "abort", "kill", "release", "watchdog", "none", "restart"])
+    if fin in ("complete", "abort", "kill"):
+        steps.append((fin, x))
+    elif fin == "release":
+        steps.append(("release", x, r))
+    elif fin == "watchdog":
+        steps.append(("watchdog",))
+    elif fin == "restart":
+        steps += [("abort", x), ("start", x)]
+    return steps
+
+
+def run_hostile(ctx, n, rng, stale_prefix):
+    cfg = random_cfg(rng)
+    prefix = stale_prefix_steps(rng, cfg) if stale_prefix else []
+    length = rng.randint(6, 16)
+    guided = rng.choice([0.3, 0.6, 0.8])
+    clock = new_clock() if cfg.timed else None
+
+    def body():
+        w = World(ctx, cfg, ctx.rng(n, "w"), clock=clock)
+        if cfg.path == "system":
+            ctx.count("system_path_histories")
+        for step in prefix:
+            if not w.apply(step):
+                break
+        for _ in range(length):
+            step = guided_step(w, rng) if rng.random() < guided else random_step(w, rng)
+            if not w.apply(step):
+                break
+        w.finish()
+        if n % 20011 == 3:
+            ctx.sample(w.witness())
+
+    if clock is not None:
+        with timed(clock):
+            body()
+    else:
+        body()
+
+
+# ---- family: two differently configured worlds in one process, used alternately ------------------------------------
+def run_pair(ctx, n, rng):
+    from operon_ai.coordination.watchdog import Watchdog
+    ca, cb = random_cfg(rng), random_cfg(rng)
+    for c in (ca, cb):      # same ids in both worlds so that any shared state collides
+        c.names = ca.names
+        c.checkpoints = None
+    shared = None
+    if ca.path == "direct" and cb.path == "direct" and rng.random() < 0.6:
+        cb.strategy = ca.strategy
+        cb.timeouts = ca.timeouts
+        shared = Watchdog(deadlock_strategy=ca.strategy, **(ca.timeouts or {}))
+        ctx.count("shared_watchdog_histories")
+    clock = new_clock() if (ca.timed or cb.timed) else None
+    length = rng.randint(10, 24)
+
+    def body():
+        ws = [World(ctx, ca, ctx.rng(n, "wa"), clock=clock, wd=shared, tag="A"), World(ctx, cb, ctx.rng(n, "wb"), clock=clock, wd=shared, tag="B")]
+        ctx.count("paired_world_histories")
+        for _ in range(length):
+            w = ws[rng.randrange(2)]
+            step = guided_step(w, rng) if rng.random() < 0.6 else random_step(w, rng)
+            if step[0] == "tick" and clock is None:
                 continue
-            elif kind == "acquire":
-                r = rids[step[2]]
-                if o in waiting and waiting[o] != r:
-                    continue      # a blocked operation only retries its acquisition
-                res = ctl.acquire_resource(ctxs[o], r)
-                trace.append(["acquire", o, r, res.value])
-                if res == LockResult.BLOCKED:
-                    waiting[o] = r
-                    had_blocked = True
-                    ctx.count("blocked_results")
-                else:
-                    waiting.pop(o, None)
-            elif kind == "release":
-                r = rids[step[2]]
-                if o in waiting or r not in ctxs[o].acquired_resources:
-                    continue
-                ok = ctl.release_resource(ctxs[o], r)
-                trace.append(["release", o, r, ok])
-            elif kind == "advance":
-                ctl.advance(ctxs[o])
-                ctx.count("phase_advances")
-                trace.append(["advance", o, ctxs[o].phase.value])
-            elif kind == "complete":
-                if o in waiting:
-                    continue
-                ctl.complete_operation(ctxs[o])
-                trace.append(["complete", o])
-            elif kind == "abort":
-                ctl.abort_operation(ctxs[o], "test")
-                waiting.pop(o, None)
-                trace.append(["abort", o])
-        # ---- compare after the step
-        own_after = owners()
-        if waiting and any(own_after[r] != own_before[r] for r in set(waiting.values())):
-            owner_change_while_waiting = True
-        edges = ref_edges()
-        cyc = find_cycle(edges)
-        try:
-            rep = ctl.check_deadlock()
-        except BaseException as e:
-            viol("check-deadlock-raises", "check_deadlock raised %r" % (e,))
-            return
-        ctx.count("steps_compared")
-        trace[-1:] = [trace[-1] + [{"owners": own_after, "waiting": dict(waiting), "reported": rep.agents if rep else None}]] if trace else []
-        if cyc is not None:
-            had_cycle = True
-            ctx.count("true_cycle_steps")
-        if cyc is not None and rep is None:
-            # classify by what happened to the edge that should exist
-            viol("missed-deadlock", "real wait-for cycle %s (edges %s) but check_deadlock() is None" % (cyc, edges))
-            return
-        if rep is not None:
-            # validate the reported cycle against the real wait-for relation
-            bad = None
-            for a in rep.agents:
-                if a not in ctl.active_operations:
-                    bad = "member %s is not a live operation" % a
-                    break
-            if bad is None:
-                for (w, b, r) in rep.cycle:
-                    if waiting.get(w) != r or own_after.get(r) != b:
-                        bad = "edge %s waits for %s held by %s is not real (waiting=%s owners=%s)" % (w, r, b, dict(waiting), own_after)
-                        break
-            if bad is None and (len(rep.cycle) != len(rep.agents) or cyc is None):
-                bad = "no real cycle among %s" % (rep.agents,)
-            if bad is not None:
-                mech = "phantom-deadlock" if cyc is None else "reported-cycle-not-real"
-                viol(mech, "check_deadlock() reports %s but %s" % (rep.agents, bad))
-                return
-            ctx.count("reported_cycles_validated")
-        states.append((tuple(sorted((k, v or "-") for k, v in own_after.items())), tuple(sorted(waiting.items()))))
-    if had_cycle:
-        ctx.count("histories_with_true_cycle")
-    if owner_change_while_waiting:
-        ctx.count("histories_with_owner_change_while_waiting")
-    if had_blocked:
-        ctx.nontrivial((prios, pre, tuple(states)))
-    if n % 20000 == 0:
-        ctx.sample(witness)
+            if not w.apply(step):
+                break
+        for w in ws:
+            w.finish()
+        # the other world must still agree with its own reference after everything that happened next door
+        for w in ws:
+            if not (w.dead or w.violated):
+                w.compare()
+
+    if clock is not None:
+        with timed(clock):
+            body()
+    else:
+        body()
+
+
+# ---- family: one long-lived instance, > 100 000 steps, > 20 000 distinct operations -----------------------------------
+def run_long(ctx, n):
+    rng = ctx.rng(n, "long")
+    nops = nres = 4
+    cfg = Cfg(nops=nops, nres=nres, prios=tuple(rng.choice([1, 2, 3, 5]) for _ in range(nops)), pre=tuple(rng.random() < 0.4 for _ in range(nres)),
+              strategy=["priority", "oldest"][n % 2], path=["direct", "system"][(n // 2) % 2], fresh_ids=True, observe=0.5, preread=(n % 3 != 0),
+              keep=60, agents=rng.choice(["distinct", "same"]))
+    w = World(ctx, cfg, ctx.rng(n, "w"))
+    for i in range(LONG_STEPS):
+        k = rng.random()
+        s, j = rng.randrange(nops), rng.randrange(w.nres)
+        if not w.live(w.ops[s]):
+            step = ("fresh", s) if k < 0.9 else ("start", s)      # mostly new ids, sometimes the old id again
+        elif k < 0.30:
+            step = guided_step(w, rng)
+        elif k < 0.55:
+            step = (rng.choice(["complete", "abort", "abort", "kill"]), s)
+        elif k < 0.85:
+            step = ("acquire", s, j)
+        elif k < 0.89:
+            step = ("watchdog",)
+        elif k < 0.92:
+            step = ("freshres", j)
+        elif k < 0.95:
+            step = ("bad_acquire", s, rng.choice(BAD_KINDS))
+        elif k < 0.98:
+            step = ("read", rng.choice(["stats", "wdcheck", "chain", "health", "check"]))
+        else:
+            step = ("release", s, j)
+        if not w.apply(step):
+            break
+    w.finish()
+    ctx.maxc("long_history_steps", w.nsteps)
+    ctx.maxc("long_history_distinct_operations", w.nfresh)
+    ctx.count("long_histories")
 
 
 if __name__ == "__main__":
